@@ -174,8 +174,21 @@ func (b *blockRun) pattern() string {
 	return strings.Join(p, "+")
 }
 
+// class is the coarse block class used in signatures (the full accept/reject pattern is in the text).
+func (b *blockRun) class() string {
+	if len(b.rejOf) == 0 {
+		return "empty"
+	}
+	for _, c := range b.rejOf {
+		if c != "" {
+			return "with-rejected"
+		}
+	}
+	return "executed-only"
+}
+
 func (b *blockRun) fail(oracle, what string) {
-	b.finds = append(b.finds, finding{fmt.Sprintf("C09|path=commitBlock|block=%s|oracle=%s", b.pattern(), oracle), what + " :: " + b.c.String()})
+	b.finds = append(b.finds, finding{fmt.Sprintf("C09|path=commitBlock|block=%s|oracle=%s", b.class(), oracle), what + " :: pattern " + b.pattern() + " :: " + b.c.String()})
 }
 
 type blockWorld struct {
@@ -208,12 +221,14 @@ func runBlock(c blockCase) *blockRun {
 		return v.(*blockRun)
 	}
 	b := execBlock(c)
-	bw.cache.Store(c.key(), b)
+	if prev, loaded := bw.cache.LoadOrStore(c.key(), b); loaded {
+		return prev.(*blockRun) // computed twice concurrently: same result, counted once
+	}
+	r.Add("commitBlock_runs", 1)
 	return b
 }
 
 func execBlock(c blockCase) *blockRun {
-	r.Add("commitBlock_runs", 1)
 	menu := bw.menus[c.Fork]
 	c.Names = nil
 	var txs types.Transactions
@@ -444,7 +459,7 @@ func checkBlock(c blockCase) (*blockRun, []finding) {
 		diffs = append(diffs, "validator sets differ")
 	}
 	if b.snap.root != b2.snap.root || len(diff(b.snap, b2.snap)) != 0 {
-		diffs = append(diffs, "state differs: "+describeDiff(b2.snap, b.snap))
+		diffs = append(diffs, "state (block without it -> block with it): "+describeDiff(b2.snap, b.snap))
 	}
 	if len(diffs) > 0 {
 		oracle := "state-as-if-absent"
